@@ -34,7 +34,7 @@ PROPS = {
                 "every 4th run is the SCION half: the real SCIONClient against real runSCIONServer listeners through a relay router, with 1..3 crafted SCION packets per attacked exchange (the genuine response with another source "
                 "ISD-AS or host, another destination ISD-AS or host, source and destination swapped, NTP fields changed, truncated, replays, the reflected request, forged responses from another AS, random bytes), so that the single retry is regularly used up before the packet of interest arrives; "
                 "non-trivial = at least one crafted datagram and two measurements; distinct = distinct event-log hash",
-        "required_probes": ["clean-exchange", "succeeded-under-attack", "measurement-failed", "scion-succeeded-under-attack", "scion-nts"],
+        "required_probes": ["clean-exchange", "succeeded-under-attack", "measurement-failed", "scion-succeeded-under-attack", "scion-nts", "scion-nts-resealed"],
         "components": {"real": ["core/client IPClient and SCIONClient receive loops", "net/ntp ValidateResponseMetadata/Timestamps", "net/nts DecodePacket/ProcessResponse", "core/server runIPServer, runSCIONServer"],
                        "stub": dict(STUBS_COMMON, **{"kernel UDP": "simnet", "attacker": "scripted injector"})},
         "assumptions": ["'comes from the queried server' is judged on the source address (a reply may come from any port of that address)",
@@ -56,7 +56,7 @@ PROPS = {
         "assumptions": ["store capacity is lowered through a variable that replaces the uses of the constant tssCap at build time; the statement's 2^20 itself is only asserted by the thorough tier's capacity run",
                         "interleavings are explored at statement granularity; 'free of data races' is decided through atomicity (relation evaluated on snapshots at lock acquire/release), not with the race detector",
                         "snapshots are taken by the scheduler-side hooks without the lock"],
-        "required_probes": ["interleaved-served", "dropped-without-kernel-stamp", "kernel-stamp-recorded"],
+        "required_probes": ["interleaved-served", "dropped-without-kernel-stamp", "kernel-stamp-recorded", "listener-identity-run", "cross-identity-request-served-basic"],
     },
     "C07": {
         "level": "exploration",
@@ -93,7 +93,7 @@ PROPS = {
                                 "net/nts, net/ntp, net/csptp, net/udp (cmsg parsers), net/scion auth.go", "gopacket/slayers decoding"],
                        "stub": dict(STUBS_COMMON, **{"kernel UDP/TCP": "simnet", "hostile peers": "scripted"}),
                        "not_run": ["net/scion/quic.go serverConn/clientConn ReadFrom (QUIC transport)", "NTS-KE over QUIC"]},
-        "assumptions": ["a panic in a goroutine the harness started is recovered and attributed to the innermost repository frame; a panic in a goroutine the code started itself kills the worker and is attributed by re-running that seed alone",
+        "assumptions": ["the QUIC transport of NTS-KE over SCION (core/server/ntske_scion.go, net/ntske/ntske_scion.go, net/scion/quic.go) is NOT exercised: quic-go is not run under the simulator; seeded change C08-F (a hang in that accept loop) is missed", "a panic in a goroutine the harness started is recovered and attributed to the innermost repository frame; a panic in a goroutine the code started itself kills the worker and is attributed by re-running that seed alone",
                         "a loop that never returns to the simulator is detected by the wall-clock watchdog (8 s) and reported as stall/<function> only if it reproduces"],
     },
     "C09": {
@@ -108,7 +108,7 @@ PROPS = {
                 "with ISD-AS, host and ports exchanged); later runs (every third over SCION) sample first bytes, lengths 0..2048, source ports, network duplicates and missing / nanosecond-form receive and missing / late transmit kernel timestamps at the listeners; every 8th reply is fed back with a forged source; "
                 "non-trivial = at least one datagram answered and one ignored; distinct = distinct event-log hash",
         "exhaustive_part": "first byte x length class x trailer class (17920 cases) enumerated completely against the IP listeners when the batch has at least 187 runs and against the SCION listeners when it has at least 374 (quick tier: 600 runs)",
-        "required_probes": ["answered", "ignored", "nts-answered", "reflection-checked", "answered-over-scion"],
+        "required_probes": ["answered", "ignored", "nts-answered", "reflection-checked", "answered-over-scion", "mixed-address-families"],
         "components": {"real": ["core/server runIPServer, runSCIONServer, handleRequest", "net/ntp DecodePacket, ValidateRequest", "net/nts DecodePacket, ProcessRequest", "net/ntske cookies, Provider"],
                        "stub": dict(STUBS_COMMON, **{"kernel UDP stack": "simnet", "senders": "scripted datagram injector"})},
         "assumptions": ["over SCION the reply's path reversal is C13's clause; here its addressing (previous hop, ISD-AS, host, ports) is checked",
@@ -188,11 +188,11 @@ PROPS = {
                 "end-host forwarder on port 30041; SCMP echo and traceroute requests; packets for another L4 port delivered to the service port, to the end-host port, and addressed to the end-host port itself; "
                 "in 2/3 of the runs the router flips bits in transit (MAC, SPI, algorithm, payload, address header, traffic class, anywhere) in 10..60 % of the packets; "
                 "non-trivial = at least two replies judged at the router; distinct = distinct event-log hash",
-        "required_probes": ["ntp-reply-checked", "authenticated-exchange", "client-verified-response", "scmp-reply-checked", "not-forwarded-from-service-port", "forwarded-from-endhost-port", "not-forwarded-to-endhost-port", "measurement-failed"],
+        "required_probes": ["ntp-reply-checked", "authenticated-exchange", "client-verified-response", "scmp-reply-checked", "not-forwarded-from-service-port", "forwarded-from-endhost-port", "not-forwarded-to-endhost-port", "measurement-failed", "served-unauthenticated-while-daemon-down", "mixed-address-families", "crafted-ntp-request"],
         "components": {"real": ["core/server runSCIONServer (NTP, SCMP, forwarding branches)", "core/client SCIONClient, MeasureClockOffsetSCION", "net/scion auth.go, Fetcher, DeriveHostHostKey", "scionproto slayers/spao/drkey (library)"],
                        "stub": dict(STUBS_COMMON, **{"SCION daemon": "mock daemon.Connector serving DRKeys derived with the real generic.Deriver", "border routers": "scripted relay that forwards, records and tampers", "kernel UDP": "simnet"}),
                        "not_run": ["IPv6 hosts, one-hop and EPIC paths (IPv4 and empty/SCION paths only)"]},
-        "assumptions": ["the oracle recomputes the CMAC with its own call of spao.ComputeAuthCMAC over the packet as received and the key it derives itself",
+        "assumptions": ["while the SCION daemon is unavailable to a listener (an injected fault the statement does not quantify over) a request with an authenticator is served like one without; the check then only demands that the reply carries no server authenticator", "the oracle recomputes the CMAC with its own call of spao.ComputeAuthCMAC over the packet as received and the key it derives itself",
                         "path reversal is checked against the harness's own reversal of the encoded path"],
     },
     "C14": {
@@ -218,7 +218,7 @@ PROPS = {
                 "per round a tape-chosen subset of the paths is offered (some listed twice, some without a fingerprint, order shuffled), packets are lost at the routers in half of the runs; every 50th run first enumerates crypto.Sample "
                 "over every sequence of accepted draws for n <= 7, k <= 4 and RandIntn on the rejection boundary with crypto/rand.Reader replaced by a scripted reader; non-trivial = at least two rounds judged; distinct = distinct event-log hash",
         "exhaustive_part": "crypto.Sample: all draw sequences for n <= 7, k <= min(4,n) (each k-subset equally often); RandIntn residues/rejection at boundary words for n in {1,2,3,5,7,10,1000,2^20,2^31-1}",
-        "required_probes": ["round-checked", "multi-client-round", "sticky-path-kept", "reset-after-path-withdrawn", "no-path-error", "ftm-checked", "uniformity-enumerated"],
+        "required_probes": ["round-checked", "multi-client-round", "sticky-path-kept", "reset-after-path-withdrawn", "no-path-error", "ftm-checked", "uniformity-enumerated", "reset-outside-interleaved-mode"],
         "components": {"real": ["core/client MeasureClockOffsetSCION, SCIONClient", "base/crypto Sample, RandIntn", "core/measurements FaultTolerantMidpoint", "core/server runSCIONServer"],
                        "stub": dict(STUBS_COMMON, **{"border routers": "one scripted relay per offered path", "path lookup": "paths are handed to MeasureClockOffsetSCION directly (Pather not run)", "crypto/rand": "seeded per run; scripted reader for the enumeration"})},
         "assumptions": ["uniformity is decided on the random seam (enumeration of draw sequences), not statistically; positions within the chosen subset are not required to be uniform",
@@ -244,7 +244,7 @@ PROPS = {
         "rule": "one run = one filter instance (lucky-packet with capacity 1..64 and pick 1..80, unconfigured lucky-packet, or Ntimed) fed 1..80 samples that are the four "
                 "timestamps of simulated exchanges (true offset up to +-55 h, delays with 0..200 ms jitter, distinct round-trip delays for the lucky-packet comparison), "
                 "with an explicit Reset or a clock-epoch change (registered simulated clock stepped) at a tape-chosen position; non-trivial = at least two samples; distinct = distinct event-log hash",
-        "required_probes": ["window-full", "picked-subset", "unconfigured", "raw-early", "fresh-equal", "reset", "epoch-change"],
+        "required_probes": ["window-full", "picked-subset", "unconfigured", "raw-early", "fresh-equal", "reset", "epoch-change", "raw-within-bounds", "outside-bounds"],
         "components": {"real": ["core/client LuckyPacketFilter, NtimedFilter", "core/timebase.Epoch via the registered clock", "net/ntp ClockOffset/RoundTripDelay"],
                        "stub": dict(STUBS_COMMON)},
         "assumptions": ["Ntimed clause 'whenever a sample lies within its learned delay bounds' is checked only through the first-three-samples rule and the metamorphic reset check (the bounds are internal)",
